@@ -98,6 +98,7 @@ def_real!(r_setreuid, "setreuid", fn(libc::uid_t, libc::uid_t) -> c_int);
 def_real!(r_setregid, "setregid", fn(libc::gid_t, libc::gid_t) -> c_int);
 def_real!(r_seteuid, "seteuid", fn(libc::uid_t) -> c_int);
 def_real!(r_setegid, "setegid", fn(libc::gid_t) -> c_int);
+def_real!(r_syscall, "syscall", fn(libc::c_long, libc::c_long, libc::c_long, libc::c_long, libc::c_long, libc::c_long, libc::c_long) -> libc::c_long);
 
 /// Resolve every real entry point now (in the parent), so that nothing has to be looked up in a forked child.
 pub fn init_all() {
@@ -107,7 +108,7 @@ pub fn init_all() {
         let _ = (r_execvpe(), r_fexecve(), r_chdir(), r_fchdir(), r_setuid(), r_setgid(), r_setpgid(), r_setsid());
         let _ = (r_pthread_sigmask(), r_sigprocmask(), r_signal(), r_sigaction(), r_clock_gettime(), r_nanosleep(), r_clock_nanosleep());
         let _ = (r_exit(), r_open64(), r_open(), r_openat(), r_openat64(), r_posix_spawn(), r_posix_spawnp(), r_close_range());
-        let _ = (r_setgroups(), r_setresuid(), r_setresgid(), r_setreuid(), r_setregid(), r_seteuid(), r_setegid());
+        let _ = (r_setgroups(), r_setresuid(), r_setresgid(), r_setreuid(), r_setregid(), r_seteuid(), r_setegid(), r_syscall());
     }
 }
 
@@ -117,7 +118,7 @@ pub const INTERPOSED: &[&str] = &[
     "waitid", "kill", "killpg", "execve", "execv", "execvp", "execvpe", "fexecve", "chdir", "fchdir", "setuid", "setgid", "setpgid",
     "setsid", "pthread_sigmask", "sigprocmask", "signal", "sigaction", "clock_gettime", "nanosleep", "clock_nanosleep", "_exit",
     "open64", "open", "openat", "openat64", "posix_spawn", "posix_spawnp", "close_range", "setgroups", "setresuid", "setresgid",
-    "setreuid", "setregid", "seteuid", "setegid",
+    "setreuid", "setregid", "seteuid", "setegid", "syscall",
 ];
 
 pub unsafe fn real_clock_gettime(id: libc::clockid_t, ts: *mut libc::timespec) -> c_int {
@@ -241,7 +242,7 @@ pub unsafe extern "C" fn pipe2(fds: *mut c_int, flags: c_int) -> c_int {
 
 unsafe fn pipe_ino(fd: c_int) -> i64 {
     let mut st: libc::stat = std::mem::zeroed();
-    if libc::syscall(libc::SYS_fstat, fd, &mut st as *mut libc::stat) == 0 {
+    if crate::rsys!(libc::SYS_fstat, fd, &mut st as *mut libc::stat) == 0 {
         st.st_ino as i64
     } else {
         0
@@ -383,12 +384,12 @@ pub unsafe extern "C" fn write(fd: c_int, buf: *const c_void, count: size_t) -> 
 
 /// Is `fd` a pipe end in blocking mode?
 unsafe fn blocking_pipe(fd: c_int) -> bool {
-    let fl = libc::syscall(libc::SYS_fcntl, fd, libc::F_GETFL) as i32;
+    let fl = crate::rsys!(libc::SYS_fcntl, fd, libc::F_GETFL) as i32;
     if fl < 0 || fl & libc::O_NONBLOCK != 0 {
         return false;
     }
     let mut st: libc::stat = std::mem::zeroed();
-    libc::syscall(libc::SYS_fstat, fd, &mut st as *mut libc::stat) == 0 && (st.st_mode & libc::S_IFMT) == libc::S_IFIFO
+    crate::rsys!(libc::SYS_fstat, fd, &mut st as *mut libc::stat) == 0 && (st.st_mode & libc::S_IFMT) == libc::S_IFIFO
 }
 
 /// A blocking write() to a pipe on the deterministic clock.  The kernel's write sleeps whenever the pipe has no free
@@ -989,4 +990,44 @@ pub unsafe extern "C" fn openat64(dfd: c_int, path: *const c_char, flags: c_int,
 pub unsafe extern "C" fn close_range(a: libc::c_uint, b: libc::c_uint, f: c_int) -> c_int {
     let on = ilog::active();
     simple!(on, k::CLOSE_RANGE, [a as i64, b as i64, f as i64, 0], r_close_range()(a, b, f))
+}
+
+/// syscall(number, ...): the library (or a change to it) may go to the kernel directly.  pidfd_open is modelled (a
+/// descriptor-creating call that can fail like any other); harmless numbers pass; anything else made by monitored code
+/// is a call the monitors do not see through their usual entry points: it is logged and counted as a blind spot.
+#[no_mangle]
+pub unsafe extern "C" fn syscall(num: libc::c_long, a1: libc::c_long, a2: libc::c_long, a3: libc::c_long, a4: libc::c_long, a5: libc::c_long, a6: libc::c_long) -> libc::c_long {
+    if !ilog::active() {
+        return r_syscall()(num, a1, a2, a3, a4, a5, a6);
+    }
+    if num == libc::SYS_pidfd_open {
+        let d = plan::decide(k::PIDFD_OPEN, a1 as i64, 0);
+        if d.fail != 0 {
+            set_errno(d.fail);
+            log(k::PIDFD_OPEN, [a1 as i64, a2 as i64, 0, 0], -1, d.fail, 1);
+            return -1;
+        }
+        let r = r_syscall()(num, a1, a2, a3, a4, a5, a6);
+        let e = errno();
+        log(k::PIDFD_OPEN, [a1 as i64, a2 as i64, 0, 0], r as i64, if r < 0 { e } else { 0 }, 0);
+        set_errno(e);
+        return r;
+    }
+    let harmless = [libc::SYS_gettid, libc::SYS_getpid, libc::SYS_getrandom, libc::SYS_futex, libc::SYS_sched_yield, libc::SYS_getuid, libc::SYS_geteuid, libc::SYS_getgid, libc::SYS_getegid, libc::SYS_clock_gettime, libc::SYS_fstat, libc::SYS_newfstatat, libc::SYS_statx, libc::SYS_lseek];
+    let r = r_syscall()(num, a1, a2, a3, a4, a5, a6);
+    let e = errno();
+    if !harmless.contains(&num) {
+        if let Some(s) = ilog::shared() {
+            s.unmodelled_raw_syscalls.fetch_add(1, std::sync::atomic::Ordering::SeqCst);
+        }
+        log(k::RAWSYS, [num as i64, a1 as i64, a2 as i64, a3 as i64], r as i64, if r < 0 { e } else { 0 }, 0);
+    }
+    set_errno(e);
+    r
+}
+
+/// The monitor's own direct system calls (never seen by the `syscall` interposer above).
+pub unsafe fn real_syscall(num: libc::c_long, a: &[libc::c_long]) -> libc::c_long {
+    let g = |i: usize| a.get(i).cloned().unwrap_or(0);
+    r_syscall()(num, g(0), g(1), g(2), g(3), g(4), g(5))
 }
